@@ -337,6 +337,13 @@ func (c *Ctx) cod8() {
 			case len(saves) > 1:
 				once.fail(p, saves[1], "the delegate's Save is called a second time on this path: the first call may have consumed the buffers (net.Buffers.WriteTo empties its receiver) or left a partial record, and the retry's success is reported for a value that was not stored")
 			default:
+				// … of exactly what encodeValue returned: nothing re-packs the
+				// record between the trailer and the store
+				ie := p.Index(0, func(e *pathx.Event) bool { return isCallTo(e, enc) })
+				if sv := &p.Events[saves[0]]; ie < 0 || ie > saves[0] || len(sv.Args) != 3 || sv.Args[2] != p.Events[ie].Result {
+					once.fail(p, saves[0], "the delegate's Save is not given the value encodeValue returned (%s): what is stored is not the documented layout of packet, sequence number and checksum", Expr(sv.Args[len(sv.Args)-1]))
+					continue
+				}
 				res := p.Events[last].Results
 				if len(res) == 1 && derivesFromB(res[0], pathx.ErrResult(p.Events[saves[0]].Result), pathBindings(p), 0) {
 					once.pass()
